@@ -428,6 +428,14 @@ Proof.
     apply (Inv_core r sc s1 _ Hcore). apply Inv_skip; auto.
   - left. exists (f, None). split; [reflexivity|]. eapply GMiss; eauto.
   - destruct H3 as (Hgf & fr & before & n & after & v & rest & Hnth & _ & Hfm & Hasg & Hemb & E1 & E2 & E3 & E4 & E5).
+    (* a group member of these layouts is never inline: nothing is left behind in the node *)
+    assert (Hrest : rest = None).
+    { pose proof Hsh as Hsh'. apply shapes_cons in Hsh'. destruct Hsh' as [Hf _].
+      assert (Hni : o_inline (fi_opts f) = false).
+      { destruct (f_inline f) eqn:E; [|exact E]. destruct (sf_inline _ _ Hf E) as (_ & _ & X & _). congruence. }
+      destruct (assign_inv _ _ _ _ _ _ _ Hasg) as [(-> & _)|(_ & Hi & _)]; [reflexivity|congruence]. }
+    subst rest.
+    assert (E1' : u_frags s1 = u_frags sc) by (rewrite E1; destruct fr; reflexivity).
     eapply GHit; eauto.
   - destruct H4 as (Hgf & n & v & rest & Hnth & Hm & Hasg & Hemb & E1 & E2 & E3 & E4 & E5).
     left. eapply PHit; eauto. destruct Hg as [Hg|Hg]; [exact Hg|congruence].
